@@ -15,6 +15,7 @@ import (
 	tmproto "github.com/cometbft/cometbft/proto/tendermint/types"
 	sdk "github.com/cosmos/cosmos-sdk/types"
 	"github.com/ethereum/go-ethereum/accounts/abi"
+	txtypes "github.com/cosmos/cosmos-sdk/types/tx"
 	"github.com/ethereum/go-ethereum/common"
 	evmtypes "github.com/evmos/evmos/v16/x/evm/types"
 )
@@ -134,6 +135,7 @@ func NewStats() Stats {
 
 // Run is one simulated execution.
 type Run struct {
+	txMutate func(*txtypes.Tx) // one-shot hook used by builders that need a non-canonical message encoding
 	Tier    string
 	Prop    string
 	Seed    uint64
@@ -731,6 +733,17 @@ var boolOutMethods = map[string]abi.Arguments{}
 
 // decodeResult extracts the operation-level success verdict.
 func (r *Run) decodeResult(bt *BuiltTx, resp abci.ResponseDeliverTx) *TxResult {
+	tr := r.decodeResult0(bt, resp)
+	if bt.CallMode != "" {
+		r.Fault("gateway_frame_" + bt.CallMode)
+		r.Probe(fmt.Sprintf("gateway-frame:%s:ok=%v", bt.CallMode, tr.OK))
+	} else if bt.Reverting {
+		r.Fault("gateway_frame_reverting")
+	}
+	return tr
+}
+
+func (r *Run) decodeResult0(bt *BuiltTx, resp abci.ResponseDeliverTx) *TxResult {
 	tr := &TxResult{BuiltTx: bt, Resp: resp}
 	if resp.Code != 0 {
 		return tr
